@@ -127,6 +127,10 @@ func c01run(r *kernel.Run) {
 		return o
 	}(), bMember)
 
+	warm := r.Pick("warm_receiver", 3) == 0
+	if warm {
+		r.Probe("receiver_instance_opened_genuine_first")
+	}
 	sdevRaw := func(gi int) []byte { return vraw(mustDev(S, groups[gi])) }
 	authentic := func(gi int, dev []byte, counter uint64, payload []byte) bool {
 		for _, m := range msgs {
@@ -157,6 +161,14 @@ func c01run(r *kernel.Run) {
 		if err != nil {
 			r.Infra("clone: %v", err)
 			return false
+		}
+		if warm {
+			// the same store INSTANCE has already read the headers of every genuine message, as the message store does
+			// when an entry arrives, before any payload is opened (whatever it remembers in memory about them must not
+			// make an altered copy acceptable)
+			for _, m := range msgs {
+				_, _, _ = p.st.OpenEnvelopeHeaders(m.env, groups[m.group])
+			}
 		}
 		h, pl, err := vopen(ctx, p, groups[gi], env, vcid(env))
 		if err != nil {
@@ -222,7 +234,17 @@ func c01run(r *kernel.Run) {
 			e2 := append([]byte(nil), m.env...)
 			e2[bit/8] ^= 1 << (bit % 8)
 			r.Fault("bit_flip")
-			if !try("bit-flip", fmt.Sprintf("bit flip at %d of message %d", bit, i), m.group, e2, false) {
+			// a flip that changes the content of one of the three authenticated fields (boxed headers, nonce, boxed
+			// payload) must be rejected; one that only touches protobuf framing must at least not open to anything else
+			inAuthenticated := false
+			oe, ae := &protocoltypes.MessageEnvelope{}, &protocoltypes.MessageEnvelope{}
+			if proto.Unmarshal(m.env, oe) == nil && proto.Unmarshal(e2, ae) == nil {
+				inAuthenticated = !bytes.Equal(oe.MessageHeaders, ae.MessageHeaders) || !bytes.Equal(oe.Nonce, ae.Nonce) || !bytes.Equal(oe.Message, ae.Message)
+			}
+			if inAuthenticated {
+				r.Probe("flip_inside_authenticated_field")
+			}
+			if !try("bit-flip", fmt.Sprintf("bit flip at %d of message %d", bit, i), m.group, e2, inAuthenticated) {
 				return
 			}
 		}
